@@ -6,6 +6,7 @@ import AriadneModel.Driver.Wire
 import AriadneModel.Generated.Tables
 import AriadneModel.Model.WsClient
 import AriadneModel.Model.WsClientOT
+import AriadneModel.Model.SubscriptionMethod
 import AriadneModel.Spec.GraphqlTransportWs
 import AriadneModel.Spec.WsConnect
 
@@ -130,6 +131,33 @@ def handleLine (j : Json) : Except String Json := do
         ("binaryNotUtf8", GqlWs.trigBinaryNotUtf8 cfg vars frames),
         ("extraHeadersKwarg", GqlWs.trigExtraHeadersKwarg cfg)]),
       ("connect_accepted", connectAccepted)])
+  | "method" =>
+    let client ← fieldStr j "client"
+    let tracer ← match j.getObjVal? "tracer" with
+      | .ok v => v.getBool?
+      | .error _ => pure false
+    let cfg ← decCfg (← field j "cfg")
+    let params ← (← (← field j "params").getArr?).toList.mapM (·.getStr?)
+    let dict ← (← (← field j "dict").getArr?).toList.mapM fun it => do
+      let pr ← it.getArr?
+      pure ((← (pr[0]?.getD Json.null).getStr?), (← (pr[1]?.getD Json.null).getStr?))
+    let opName ← fieldStr j "opName"
+    let opText ← fieldStr j "opText"
+    let args ← decPV.decPVKvs (← field j "args")
+    let frames ← (← (← field j "frames").getArr?).toList.mapM decFrame
+    let b := SubMethod.emit params dict opName
+    let (tbl, exec) : List (String × String) × (Cfg → Option (List (String × PV)) → List Frame → Trace) :=
+      match client with
+      | "ot" => (Tables.wsTypesAsyncOT, WsClientOT.run tracer Tables.wsTypesAsyncOT Tables.wsSubprotocolAsyncOT)
+      | _ => (Tables.wsTypesAsync, WsClient.run Tables.wsTypesAsync Tables.wsSubprotocolAsync)
+    let tr := SubMethod.runMethodWith exec cfg b opText params args frames
+    let t := (Types.ofTable tbl).getD GqlWs.proto
+    pure (Json.mkObj [
+      ("body", Json.mkObj [("queryTarget", b.queryTarget), ("varsTarget", b.varsTarget), ("loopTarget", b.loopTarget),
+        ("callQuery", b.callQuery), ("callVars", b.callVars), ("callKwargs", b.callKwargs), ("yieldArg", b.yieldArg),
+        ("opName", b.opName)]),
+      ("events", Json.arr (encEvents t tr.events).toArray),
+      ("outcome", encOutcome tr.outcome)])
   | "accepts" =>
     let names ← (← (← field j "names").getArr?).toList.mapM (·.getStr?)
     pure (Json.bool (WsConnect.acceptsNames Tables.wsConnectAccepted names))
